@@ -2418,10 +2418,26 @@ func (f *Frame) applyEffects(fc *FuncContract, env *Env, post *State) {
 		cur := post.Get(name, s)
 		f.E.noteVars(cur)
 		var nv *Term
+		if idx.K == VAddr && idx.Addr != nil && idx.Addr.Kind == AObj && idx.Addr.Path == "" {
+			// the address of a heap cell / struct object: its reference indexes the ghost array
+			idx = &Val{K: VScalar, T: idx.T, X: idx.Addr.Obj}
+		}
+		if idx.X == nil {
+			// the event's index is not a reference or scalar here (a non-escaping local buffer):
+			// the event is not recorded; the ghost array is havocked instead (sound: nothing is
+			// assumed about it afterwards)
+			post.Set(name, s, f.fresh("hv$"+name, s))
+			continue
+		}
 		if val == nil {
 			nv = Add(Select(cur, idx.X), IntLit(1))
 		} else {
-			nv = f.evalC(val, env).X
+			vv := f.evalC(val, env)
+			if vv.X == nil {
+				post.Set(name, s, f.fresh("hv$"+name, s))
+				continue
+			}
+			nv = vv.X
 		}
 		post.Set(name, s, f.E.name(Store(cur, idx.X, nv), f.prefix+"eff$"+name))
 	}
